@@ -49,6 +49,8 @@ class Ctx:
         self.functions_inlined = Counter()
         self.contracts_used = Counter()
         self.spec_depth = 0
+        self.reveal_depth = 0
+        self.opaque_ufs = {}
         self.path_count = 0
         self.concrete_math = False
         self.notes = []
@@ -87,6 +89,7 @@ class Ctx:
         if self.spec_depth:
             return None
         o = Obl(name, kind, role, list(st.pc) + list(extra_hyps), goal, line, note)
+        o.qf_only = False
         self.obls.append(o)
         return o
 
